@@ -142,20 +142,35 @@ def same_path(p, q):
 # ----------------------------------------------------------------- wsvg case
 def wsvg_case(rng, scratch, ci, stream):
     from svgpathtools import wsvg, svg2paths2, Document, SaxDocument, parse_path
+    from svgpathtools import Path
     n = rng.randint(1, 5)
     paths = [gen_path(rng) for _ in range(n)]
+    empty_at, viewbox = None, None
+    if stream == 'wsvg' and rng.random() < 0.15:
+        # the (legitimate) empty path at the front / in the middle / at the end of the list
+        empty_at = rng.choice(['front', 'middle', 'end', 'only'])
+        if empty_at == 'only':
+            paths = [Path()]
+        else:
+            paths.insert({'front': 0, 'middle': max(1, len(paths) // 2) if len(paths) > 1 else 0, 'end': len(paths)}[empty_at], Path())
+        n = len(paths)
+        if rng.random() < 0.7:
+            viewbox = '0 0 100 100'         # without it disvg asks every path for its bounding box
     style = None
     if stream == 'style':
         style = rng.choice(['fill:none;stroke:black', 'fill:none;stroke:black;', 'stroke-width:2', 'fill:red;', 'opacity:0.5;fill:blue'])
-    use_attrs = stream == 'style' or rng.random() < 0.85
+    use_attrs = stream == 'style' or empty_at is not None or rng.random() < 0.85
     attrs = [gen_attrs(rng, i, style if (stream == 'style' and i == 0) else None) for i in range(n)] if use_attrs else None
+    if empty_at is not None:
+        for i, a in enumerate(attrs):       # a distinct dictionary per path: a shifted pairing is visible
+            a['id'] = 'p%d' % i
     svga = gen_svg_attrs(rng)
     fname = rng.choice(['out.svg', 'with space.svg', 'ünï.svg', 'sub dir/deeper/x.svg', 'a.b.c.svg'])
     fpath = os.path.join(scratch, 'w%d' % ci, fname)
     case = {'stream': stream, 'n': n, 'd': [p.d() for p in paths], 'attributes': attrs, 'svg_attributes': svga,
-            'filename': fname}
+            'filename': fname, 'empty_path': empty_at, 'viewbox': viewbox}
     r = guarded(lambda: wsvg(paths, filename=fpath, attributes=[dict(a) for a in attrs] if attrs is not None else None,
-                             svg_attributes=dict(svga) if svga is not None else None))
+                             svg_attributes=dict(svga) if svga is not None else None, viewbox=viewbox))
     case['write'] = {'exc': r['exc'], 'msg': r['msg']} if 'exc' in r else 'ok'
     if 'exc' in r:
         return case, paths
@@ -179,7 +194,12 @@ def eval_wsvg(rep, case, paths, stats):
     """the property on the real code"""
     from svgpathtools import parse_path
     base = {'kind': 'wsvg', 'stream': case['stream'], 'd': case['d'], 'attributes': case['attributes'],
-            'svg_attributes': case['svg_attributes'], 'filename': case['filename']}
+            'svg_attributes': case['svg_attributes'], 'filename': case['filename'],
+            'empty_path': case.get('empty_path'), 'viewbox': case.get('viewbox')}
+    if case['write'] != 'ok' and case.get('empty_path') and case['write']['exc'] == 'ValueError' and not case.get('viewbox'):
+        rep.violation('C18: wsvg raises ValueError on a list that contains the empty Path() (its bbox() raises)',
+                      dict(base, error=case['write']), key='wsvg-empty-path-bbox-valueerror')
+        return
     if case['write'] != 'ok':
         rep.violation('C18: wsvg raises %s: %s' % (case['write']['exc'], case['write']['msg'][:100]),
                       dict(base, error=case['write']), key='wsvg-exception-%s' % case['write']['exc'])
@@ -191,18 +211,22 @@ def eval_wsvg(rep, case, paths, stats):
     for rd, r in case['readers'].items():
         if 'exc' in r:
             key = 'read-exception-%s-%s' % (rd, r['exc'])
+            if rd == 'svg2paths' and r['exc'] == 'KeyError' and case.get('empty_path'):
+                # svgwrite leaves the d attribute of the empty path out; svg2paths reads el['d']
+                key = 'svg2paths-path-without-d-keyerror'
             if rd == 'sax' and r['exc'] == 'IndexError' and case['stream'] == 'style':
                 key = 'sax-style-trailing-semicolon-indexerror'
             rep.violation('C18: %s raises %s on a file written by wsvg: %s' % (rd, r['exc'], r['msg'][:100]),
                           dict(base, reader=rd, error={k: v for k, v in r.items()}), key=key)
             continue
         ps, at, sa = r['ok']
-        if len(ps) != len(paths):
-            rep.violation('C18: %s returns %d paths, %d were written' % (rd, len(ps), len(paths)),
+        if len(ps) != len(paths) or len(at) != len(paths):
+            rep.violation('C18: %s returns %d paths and %d attribute dictionaries, %d paths were written'
+                          % (rd, len(ps), len(at), len(paths)),
                           dict(base, reader=rd), key='count-%s' % rd)
             continue
         for i, (got, e) in enumerate(zip(ps, expect)):
-            if at[i].get('d') != case['d'][i]:
+            if (at[i].get('d') or '') != case['d'][i]:
                 rep.violation('C18: %s: the d attribute read back differs from Path.d()' % rd,
                               dict(base, reader=rd, index=i, got=at[i].get('d')), key='d-string-%s' % rd)
             elif not same_path(got, e):
@@ -240,14 +264,17 @@ def wsvg_coq_term(case):
     if case['write'] != 'ok' or case['attributes'] is None:
         return None
     rd = case['readers']
-    if 'exc' in rd['svg2paths'] or 'exc' in rd['document']:
+    if 'exc' in rd['document']:
         return None
+    s2p_ok = 'ok' in rd['svg2paths']
+    if case.get('viewbox') and case['svg_attributes'] is not None:
+        return None          # (disvg ignores the viewbox argument when svg_attributes are given)
     sax_ok = 'ok' in rd['sax']
     allstr = list(case['d'])
     for a in case['attributes']:
         allstr += list(a.keys()) + list(a.values())
-    s2p_ps, s2p_at, s2p_sa = rd['svg2paths']['ok']
     doc_ps, doc_at, doc_sa = rd['document']['ok']
+    s2p_ps, s2p_at, s2p_sa = rd['svg2paths']['ok'] if s2p_ok else ([], [], doc_sa)
     sax_ps, sax_at, sax_sa = rd['sax']['ok'] if sax_ok else ([], [], {})
     for dd in s2p_at + doc_at + sax_at + [s2p_sa]:
         allstr += list(dd.keys()) + list(dd.values())
@@ -257,8 +284,9 @@ def wsvg_coq_term(case):
     size = {k: v for k, v in s2p_sa.items() if k in ('width', 'height', 'viewBox') and k not in sva}
     return '(%s, %s, %s, %s, %s, %s, %s, %s)' % (
         clstr(case['d']), cldict(case['attributes']), cdict(sva), cdict(size),
-        '(Some (%s, %s))' % (clstr([a.get('d', '') for a in s2p_at]), cldict(s2p_at)),
-        '(Some %s)' % cdict(s2p_sa),
+        '(Some (%s, %s))' % (clstr([a.get('d', '') for a in s2p_at]), cldict(s2p_at)) if s2p_ok
+        else '(@None (list string * list dict))',
+        '(Some %s)' % cdict(s2p_sa) if s2p_ok else '(@None dict)',
         '(%s, %s)' % (clstr([a.get('d', '') for a in doc_at]), cldict(doc_at)),
         '(Some (%s, %s))' % (clstr([a.get('d', '') for a in sax_at]), cldict(sax_at)) if sax_ok
         else '(@None (list string * list dict))')
@@ -347,6 +375,9 @@ def history_case(rng, scratch, ci):
             d_in = simple_d(rng)
             # first argument: a Path object or a d-string; the path that must come back is its d()
             as_path = rng.random() < 0.5
+            if rng.random() < 0.18:
+                d_in = ''                  # the empty path: Path() / '' (front, middle or end of the history)
+                case['empty_added'] = case.get('empty_added', 0) + 1
             arg = parse_path(d_in) if as_path else d_in
             d = arg.d() if as_path else d_in
             # attribute dicts: None, without 'd', and (the typical svg2paths -> edit -> add_path history)
@@ -438,9 +469,28 @@ def history_case(rng, scratch, ci):
     fout = os.path.join(scratch, 'h%d_out.svg' % ci)
     doc.save(fout)
     case['saved_text'] = open(fout).read()
-    r1 = guarded(lambda: [p.element.get('d', '') for p in Document(fout).paths()])
-    r2 = guarded(lambda: [a['d'] for a in svg2paths(fout)[1]])
-    r3 = guarded(lambda: [v['d'] for v in SaxDocument(fout).tree])
+    # every reader: the paths AND the attribute dictionaries it returns; a path that does not belong to
+    # the dictionary at its index (or a missing one) shows up as '<no path>' / '<other path>'
+    def paired(ps, ds, comparable):
+        out = []
+        for i, dd in enumerate(ds):
+            if i >= len(ps):
+                out.append('<no path>')
+            elif comparable[i] and not (ps[i] == parse_path(dd)):
+                out.append('<other path>')
+            else:
+                out.append(dd)
+        return out + ['<extra path>'] * max(0, len(ps) - len(ds))
+    def rd_doc():
+        ps = Document(fout).paths()
+        return paired(ps, [p.element.get('d', '') for p in ps], [False] * len(ps))
+    def rd_s2p():
+        ps, at = svg2paths(fout)
+        return paired(ps, [a['d'] for a in at], [True] * len(at))
+    def rd_sax():
+        sx = SaxDocument(fout)
+        return paired(sx.flatten_all_paths(), [v['d'] for v in sx.tree], [v['matrix'] is None for v in sx.tree])
+    r1, r2, r3 = guarded(rd_doc), guarded(rd_s2p), guarded(rd_sax)
     case['reload'] = {'document': r1, 'svg2paths': r2, 'sax': r3}
     for f in (fin, fout):
         if f and os.path.exists(f):
@@ -501,6 +551,11 @@ def eval_history(rep, case):
         if 'exc' in r:
             rep.violation('C18: %s raises %s on a file saved by Document' % (rd, r['exc']),
                           dict(base, reader=rd, error=r), key='doc-save-read-exception-%s-%s' % (rd, r['exc']))
+            continue
+        if any(x in ('<no path>', '<other path>', '<extra path>') for x in r['ok']):
+            rep.violation('C18: %s: the paths and the attribute dictionaries read back from a file saved by Document do '
+                          'not correspond one to one, each dictionary with its own path: %s' % (rd, r['ok']),
+                          dict(base, reader=rd, got=r['ok']), key='read-back-path-attribute-pairing-%s' % rd)
             continue
         got = sorted(r['ok'])
         if got != want:
